@@ -115,7 +115,7 @@ const ALL_TYPES: [usize; 10] = [0, 1, 2, 3, 4, 5, 6, 7, 8, 9];
 const MULTI_TYPES: [usize; 6] = [4, 5, 6, 7, 8, 9];
 
 pub fn c08(ctx: &Ctx) -> i32 {
-    let spec = EnvSpec { check: "c08", flags: E_STEP, env_types: ALL_TYPES.to_vec(), sessions: ctx.tier.pick(15_000, 400_000), max_steps: 30, toggle_rate: 0.06, offgrid_rate: 0.0 };
+    let spec = EnvSpec { check: "c08", flags: E_STEP, env_types: ALL_TYPES.to_vec(), sessions: ctx.tier.pick(60_000, 1_000_000), max_steps: 30, toggle_rate: 0.06, offgrid_rate: 0.0 };
     let out = run_env_spec(ctx, &spec);
     let c = &out.census;
     let mut inconclusive = floors(&[
@@ -144,7 +144,7 @@ pub fn c08(ctx: &Ctx) -> i32 {
 }
 
 pub fn c10(ctx: &Ctx) -> i32 {
-    let spec = EnvSpec { check: "c10", flags: E_INVIS, env_types: ALL_TYPES.to_vec(), sessions: ctx.tier.pick(5000, 120_000), max_steps: 20, toggle_rate: 0.05, offgrid_rate: 0.03 };
+    let spec = EnvSpec { check: "c10", flags: E_INVIS, env_types: ALL_TYPES.to_vec(), sessions: ctx.tier.pick(15_000, 400_000), max_steps: 20, toggle_rate: 0.05, offgrid_rate: 0.03 };
     let out = run_env_spec(ctx, &spec);
     let c = &out.census;
     let inconclusive = floors(&[("submissions_checked", c.submissions_checked, 20_000), ("steps", c.steps, 2000), ("trades", c.trades, 500), ("multi_asset_sessions", c.multi_asset_sessions, 50)]);
@@ -162,7 +162,7 @@ pub fn c10(ctx: &Ctx) -> i32 {
 }
 
 pub fn c11(ctx: &Ctx) -> i32 {
-    let spec = EnvSpec { check: "c11", flags: E_REC, env_types: ALL_TYPES.to_vec(), sessions: ctx.tier.pick(15_000, 400_000), max_steps: 40, toggle_rate: 0.04, offgrid_rate: 0.0 };
+    let spec = EnvSpec { check: "c11", flags: E_REC, env_types: ALL_TYPES.to_vec(), sessions: ctx.tier.pick(60_000, 1_000_000), max_steps: 40, toggle_rate: 0.04, offgrid_rate: 0.0 };
     let out = run_env_spec(ctx, &spec);
     let c = &out.census;
     let inconclusive = floors(&[("rows_compared", c.rows_compared, 10_000), ("asymmetric_rows", c.asymmetric_rows, 2000), ("deep_level_rows", c.deep_level_rows, 1000), ("trades", c.trades, 1000), ("multi_asset_sessions", c.multi_asset_sessions, 100)]);
